@@ -17,21 +17,34 @@ _local = threading.local()
 _START = 1_000_000_000
 
 
-def _st():
-    if not hasattr(_local, "now"):
-        _local.now = _START
-        _local.timers = weakref.WeakSet()
-    return _local
+class Clock:
+    """one virtual time line with the Countdown objects created/restarted while it was current"""
+
+    def __init__(self, start: int = _START):
+        self.now = start
+        self.timers = weakref.WeakSet()
+
+
+def _st() -> Clock:
+    c = getattr(_local, "cur", None)
+    if c is None:
+        c = _local.cur = Clock()
+    return c
 
 
 def now_ms() -> int:
     return _st().now
 
 
-def reset(start: int = _START) -> None:
-    st = _st()
-    st.now = start
-    st.timers = weakref.WeakSet()
+def reset(start: int = _START) -> Clock:
+    """Starts a fresh time line and makes it the current one of this thread."""
+    _local.cur = Clock(start)
+    return _local.cur
+
+
+def use(clock: Clock) -> None:
+    """Makes ``clock`` current for this thread: sibling loopback worlds stepped in alternation each keep their own time line."""
+    _local.cur = clock
 
 
 def advance(ms: int) -> None:
